@@ -82,6 +82,67 @@ CLAIMED["C04"] = dict(
     technique="Lean 4 proof (closed form of the accepted view) + differential correspondence + independent OOXML oracle",
     design="§5 C04")
 
+ENGINE_TIE = ("Tie: the Lean engine model (Adeu.Doc.applyEditsIndexed / Sess.applyActions: anchors, run splitting, tracked "
+              "deletion/insertion, multi-line and heading insertions, comments, review actions) is compared with the real "
+              "engine on every generated case — whole saved package read back by an independent reader, run boundaries, "
+              "revision ids and the four comment lists included (ids/dates renamed order-preservingly). ")
+CLAIMED["C01"] = dict(
+    text=("Lean theorems on the building blocks of the engine model: C01_split_neutral_core (run splitting keeps every "
+          "child once, in order), C01_delete_restores_core, C01_reject_restores_core (a tracked replacement is undone "
+          "exactly by rejecting the session's marks; everything else in place), C01_session_ids_fresh. " + ENGINE_TIE +
+          "Independent oracle: reject the session's marks in the saved package and compare the canonical content "
+          "stream with the input (all edit kinds, heuristic and indexed paths). The composition inside applyIndexed and "
+          "the heuristic matching layer are covered by correspondence + oracle, not by a theorem."),
+    note=NOTE_COMMON + "the documented exception (edit inside someone else's pending insertion) is outside this check's batches.",
+    technique="Lean 4 proofs on the engine model's building blocks + whole-document differential correspondence + reversibility oracle",
+    design="§5 C01")
+CLAIMED["C06"] = dict(
+    text=("Lean theorems about accept/reject on paragraph children: C06_accept_effect, C06_reject_effect, C06_isolation, "
+          "C06_commute (all four combinations, distinct ids), C06_unknown_skipped, C06_resolved_once, C06_counts, "
+          "C06_accept_each_eq_acceptAll — all documents, all sequences. " + ENGINE_TIE + "Oracle: per-character "
+          "reference semantics on the independent reader's view, counts, accept-each == accept-all == accepted view; "
+          "random and exhaustive short action sequences incl. unknown / malformed / quoted ids."),
+    note=NOTE_COMMON + "changes inside headers/footers cannot be addressed (only the main part is searched).",
+    technique="Lean 4 proof (commutation, idempotence, isolation by induction over children) + differential correspondence",
+    design="§5 C06")
+CLAIMED["C08"] = dict(
+    text=("Lean theorems: C08_total (applied + skipped = submitted, every indexed batch), C08_skip_leaves_only_splits_core, "
+          "C08_no_nesting_core. " + ENGINE_TIE + "Oracle on conflict-heavy batches (duplicate, overlapping, nested, "
+          "inside-deleted, not-found, empty-target, odd characters): never raises, totals, all-skipped => content unchanged, "
+          "accepted result == input with a non-conflicting subset of size `applied` (exhaustive subset search), no nesting. "
+          "'Never raises' and the conflict-subset clause of the heuristic layer are runtime/oracle-observed (exploration-"
+          "level for that clause). One open finding (F-fuzzy-after-conflict)."),
+    note=NOTE_COMMON + "totality on the model side is by construction; exceptions of the real code are observed per case.",
+    technique="Lean 4 proof of the accounting invariant + differential correspondence + subset-search oracle",
+    design="§5 C08")
+CLAIMED["C09"] = dict(
+    text=("Lean theorems: C09_mark_attribution (author/date/id of every created mark), C09_ids_fresh (new ids exceed every "
+          "id of the main part and the reachable header/footer parts), C09_comment_parts (a new comment is listed exactly "
+          "once in each of the four lists), C09_deltext_only_in_del. " + ENGINE_TIE + "Oracle: package validator on the "
+          "saved bytes after edit batches, review actions, replies and a second round by another author (zip, "
+          "well-formedness, content types, relationship targets, id uniqueness, ISO dates, nesting, comment triples, "
+          "auxiliary parts). One open finding (F-reply-anchor-in-insertion)."),
+    note=NOTE_COMMON + "random paragraph/durable ids are placeholders in the model (collision freedom not proved).",
+    technique="Lean 4 proof of id freshness / attribution + differential correspondence + package validator oracle",
+    design="§5 C09")
+CLAIMED["C10"] = dict(
+    text=("Lean theorems: C10_one_new_comment (exactly one appended comment with the text and the session's author, "
+          "existing comments and stories untouched), C10_anchor_encloses, C10_reply_unknown_skipped. " + ENGINE_TIE +
+          "Oracle: every applied commented edit (replacement, insertion, deletion, multi-line, heading) has exactly one "
+          "new comment anchored on its own marks and shown with them in the raw view; replies threaded and shown with "
+          "their thread; unknown parents skipped."),
+    note=NOTE_COMMON + "comment/edit association in the oracle is by (unique) comment text.",
+    technique="Lean 4 proof on the comment store model + differential correspondence + anchoring oracle",
+    design="§5 C10")
+CLAIMED["C16"] = dict(
+    text=("Lean theorems: C16_inherits (every inserted run carries the other run properties of the style source), "
+          "C16_literal (text without a well-formed span is inserted literally as one run), C16_heading_style. " +
+          ENGINE_TIE + "Oracle: run properties of inserted runs equal an original neighbour's, spans rendered, literal "
+          "punctuation and '#' lines handled ([___], snake_case, 2*3*4, #hashtag)."),
+    note=NOTE_COMMON + "'well-formed span' is defined next to the theorem (Props/C16.lean).",
+    technique="Lean 4 proof on the insertion model + differential correspondence + formatting oracle",
+    design="§5 C16")
+
 PENDING = {
 }
 
